@@ -270,7 +270,7 @@ Qed.
 Lemma clean_host_wf l out : Forall host_wf l -> clean_host l = Some out -> Forall host_wf out.
 Proof.
   intros Hw. unfold clean_host.
-  pose proof (host_norm_sound (mkVal (fun _ => mkStream (fun _ => 0%Z) 0%Z 0%Z 0 [] [] (fun _ => 1)) (fun _ _ => None)) l Hw) as Hn.
+  pose proof (host_norm_sound (mkVal (fun _ => mkStream (fun _ => 0%Z) 0%Z 0%Z 0 [] [] (fun _ => 1)) (fun _ _ => None) 0) l Hw) as Hn.
   destruct (host_norm l) as [l1|]; [|discriminate]. destruct Hn as [_ Hn].
   pose proof (isort_Forall host_key _ _ Hn) as Hs.
   destruct (isort host_key l1) as [|a r]; [intros H; inversion H; constructor|]. apply host_dedupe_wf; auto.
